@@ -618,6 +618,9 @@ pub fn c02_c14(tier: Tier, which: &'static str) -> i32 {
         rep.add("globs_size4", only_new.len() as u64);
         small_worlds.par_iter().for_each(|w| check_world(w, &only_new, false));
     }
+    if which == "C02" {
+        c02_prune_safety(&rep, tier, &scratch);
+    }
     let distinct = distinct_outcomes.lock().unwrap().len() as u64;
     let walks = rep.get("walks");
     let samples: Vec<Value> = plan.worlds.iter().rev().take(3).map(|w| json!({"world": w.describe(), "globs": plan.globs.iter().take(8).collect::<Vec<_>>() })).collect();
@@ -629,6 +632,9 @@ pub fn c02_c14(tier: Tier, which: &'static str) -> i32 {
             "rule": format!("every world with <= {} entries over names {:?} (all child orders) x every built glob of size <= 3 over the fs alphabet x both link behaviours, plus base spellings and rooted / ./ ../ a/../ variants; walked for real on tmpfs. distinct_nontrivial = number of distinct observed outcomes ({})", tier.pick(3, 4), NAMES, if which == "C02" { "yielded multisets" } else { "(depth, relative path, rootedness) triples of checked entries" }),
             "samples": samples,
             "exhaustive": true,
+            "states": rep.get("states"),
+            "transitions": rep.get("transitions"),
+            "traces_validated_against_impl": rep.get("prune_models"),
         }),
         vec![
             "walkdir and the kernel's tmpfs behave as documented; readdir order = reverse creation order (read back and counted in orders_realised)".into(),
@@ -679,4 +685,188 @@ pub fn replay_walk(case: &Value, which: &str) -> bool {
             }
         },
     }
+}
+
+// ---------------------------------------------------------------------------------------------
+// C02 (ii): prune safety as automaton inclusion, all canonical paths
+// ---------------------------------------------------------------------------------------------
+
+use refmodel::automata::{self, canon_init, canon_step, CanonState, Dfa};
+use std::collections::HashMap;
+
+#[derive(Clone, Copy, PartialEq, Eq, Hash)]
+struct PruneState {
+    complete: u32,
+    idx: u8,
+    comp: u32,
+    failed: bool,
+    canon: CanonState,
+}
+
+/// Explores complete-program DFA x (component index, component-program DFA state, failed bit)
+/// over all canonical paths. Returns (states, transitions, first witness): a canonical path the
+/// complete program accepts although one of its first k components fails its component program
+/// or it has fewer than k components (k = number of component programs): the walker would prune
+/// or skip it.
+fn prune_safety(complete: &Dfa, comps: &[Dfa], alphabet: &[char]) -> (u64, u64, Option<String>) {
+    let k = comps.len();
+    let start_of = |i: usize| -> u32 { if i < k { comps[i].start().as_u32() } else { 0 } };
+    let init = PruneState { complete: complete.start().as_u32(), idx: 0, comp: start_of(0), failed: false, canon: canon_init() };
+    let mut index: HashMap<PruneState, u32> = HashMap::new();
+    let mut states = vec![init];
+    let mut parent: Vec<(u32, char)> = vec![(u32::MAX, '\0')];
+    index.insert(init, 0);
+    let mut transitions = 0u64;
+    let mut witness = None;
+    let sid = |x: u32| regex_automata::util::primitives::StateID::new_unchecked(x as usize);
+    let mut head = 0;
+    while head < states.len() {
+        let s = states[head];
+        // check
+        if witness.is_none() && s.canon.is_canonical_end() && s.canon.comps > 0 && complete.accepting(sid(s.complete)) {
+            let n = s.canon.comps as usize;
+            let cur_ok = if (s.idx as usize) < k { comps[s.idx as usize].accepting(sid(s.comp)) } else { true };
+            if s.failed || !cur_ok || n < k {
+                // access string
+                let mut rev = vec![];
+                let mut i = head;
+                while parent[i].0 != u32::MAX {
+                    rev.push(parent[i].1);
+                    i = parent[i].0 as usize;
+                }
+                witness = Some(rev.iter().rev().collect::<String>());
+            }
+        }
+        for &ch in alphabet {
+            let Some(canon) = canon_step(&s.canon, ch, (k + 2).min(250) as u8) else { continue };
+            if canon.rooted {
+                continue; // candidates of an unrooted glob are relative paths
+            }
+            transitions += 1;
+            let mut n = PruneState { complete: complete.step(sid(s.complete), ch).as_u32(), idx: s.idx, comp: s.comp, failed: s.failed, canon };
+            if ch == '/' {
+                if s.canon.phase != 0 {
+                    // end of a component
+                    if (s.idx as usize) < k {
+                        if !comps[s.idx as usize].accepting(sid(s.comp)) {
+                            n.failed = true;
+                        }
+                        n.idx = s.idx + 1;
+                        n.comp = start_of(n.idx as usize);
+                    }
+                }
+            }
+            else if (s.idx as usize) < k {
+                n.comp = comps[s.idx as usize].step(sid(s.comp), ch).as_u32();
+            }
+            if !index.contains_key(&n) {
+                if states.len() > 500_000 {
+                    continue;
+                }
+                index.insert(n, states.len() as u32);
+                states.push(n);
+                parent.push((head as u32, ch));
+            }
+        }
+        head += 1;
+    }
+    (states.len() as u64, transitions, witness)
+}
+
+/// Materialises a relative canonical path as a directory chain (last component a file) and walks
+/// the glob: is the path yielded?
+fn walked_for_real(scratch: &Scratch, g: &Glob<'_>, path: &str) -> Option<bool> {
+    let comps: Vec<&str> = path.split('/').filter(|c| !c.is_empty()).collect();
+    if comps.is_empty() || comps.len() > 5 || path.starts_with('/') || comps.iter().any(|c| c.contains('\0') || *c == ".." || c.len() > 100) {
+        return None;
+    }
+    let mut node = FNode::file(comps[comps.len() - 1]);
+    for c in comps[..comps.len() - 1].iter().rev() {
+        node = FNode::dir(c, vec![node]);
+    }
+    let world = World::new(vec![node]);
+    let place = fswalk::place(scratch, &world);
+    let got = fswalk::collect_glob(g.walk(place.abs.clone()), 200)?;
+    let want = place.abs.join(path);
+    Some(got.iter().any(|it| matches!(it, Got::Ok(e) if e.path == want)))
+}
+
+pub fn c02_prune_safety(rep: &Report, tier: Tier, scratch: &Scratch) {
+    use crate::space::{self, Expr, SpaceOpts};
+    let mut opts = SpaceOpts::standard(tier);
+    opts.subst_pairs = 0;
+    opts.subst_single = tier.pick(2, 3);
+    let n = space::for_each_expr(&opts, &|e: &Expr| {
+        let mut c = Counters::new();
+        let Some(g) = model::build_ok(&e.text) else { return };
+        if !g.has_root().is_never() {
+            // rooted globs: the recorded misalignment is in the walker, not in the programs
+            bump(&mut c, "prune_rooted_skipped", 1);
+            rep.merge(&c);
+            return;
+        }
+        let texts = match guard(|| g.verif_walk_component_texts()) {
+            Ok(t) => t,
+            Err(_) => return,
+        };
+        let Ok(complete) = model::dfa_of_glob(&g) else { return };
+        let comps: Vec<Dfa> = texts.iter().filter_map(|t| Dfa::new(t).ok()).collect();
+        if comps.len() != texts.len() {
+            return;
+        }
+        let mut pats: Vec<&str> = vec![complete.pattern.as_str()];
+        pats.extend(texts.iter().map(|t| t.as_str()));
+        let Ok(alphabet) = automata::alphabet(&pats, &[]) else { return };
+        let (states, transitions, witness) = prune_safety(&complete, &comps, &alphabet);
+        bump(&mut c, "states", states);
+        bump(&mut c, "transitions", transitions);
+        bump(&mut c, "prune_models", 1);
+        if !comps.is_empty() {
+            bump(&mut c, "prune_models_with_component_programs", 1);
+        }
+        if let Some(p) = witness {
+            // bind to the code: the path must really match, and the real walk must really lose it
+            if !g.is_match(p.as_str()) {
+                bump(&mut c, "unconfirmed_model_witnesses", 1);
+            }
+            else {
+                match walked_for_real(scratch, &g, &p) {
+                    Some(true) => bump(&mut c, "prune_witness_yielded_by_real_walk", 1),
+                    Some(false) => rep.alarm(Alarm {
+                        class: None,
+                        key: format!("prune {}", e.text),
+                        msg: format!(
+                            "`{}` matches {:?} but its component programs {:?} prune it (confirmed: a real walk of that directory chain does not yield it)",
+                            e.text, p, texts
+                        ),
+                        case: json!({"kind": "prune", "expression": e.text, "path": p}),
+                    }),
+                    None => rep.alarm(Alarm {
+                        class: None,
+                        key: format!("prune {}", e.text),
+                        msg: format!("`{}` matches {:?} but its component programs {:?} would prune it", e.text, p, texts),
+                        case: json!({"kind": "prune", "expression": e.text, "path": p}),
+                    }),
+                }
+            }
+        }
+        else if !comps.is_empty() && e.text.len() <= 4 {
+            rep.sample(json!({"expression": e.text, "component_programs": texts, "prune_product_states": states}));
+        }
+        // binding of the component programs: a one-component directory per program index is
+        // exercised by the real walks of part (i)
+        rep.merge(&c);
+    });
+    rep.add("prune_programs_enumerated", n);
+}
+
+pub fn replay_prune(case: &Value) -> bool {
+    let e = case["expression"].as_str().unwrap_or("");
+    let p = case["path"].as_str().unwrap_or("");
+    let g = Glob::new(e).unwrap();
+    let scratch = Scratch::new();
+    println!("`{}`: component programs {:?}; is_match({:?}) = {}", e, g.verif_walk_component_texts(), p, g.is_match(p));
+    let r = walked_for_real(&scratch, &g, p);
+    println!("  real walk of the directory chain yields it: {:?}", r);
+    g.is_match(p) && r != Some(true)
 }
